@@ -33,8 +33,8 @@ ASSUMPTIONS = [
     "floats returned by composition_conservation are encoded as rationals p/q (q <= 10^6, residual <= 1e-12)",
 ]
 
-QUICK = ["single_q", "cfgs_q", "sys_q", "hist_q"]
-THOROUGH = ["single_t", "cfgs_t", "sys_t", "hist_t"]
+QUICK = ["single_q", "cfgs_q", "sys_q", "hist_q", "opts_q"]
+THOROUGH = ["single_t", "cfgs_t", "sys_t", "hist_t", "opts_t"]
 ACTIONS = ["GenSystem", "SetExtent", "GenNoPerturb", "GenBreakQuotient", "GenScale",
            "GenBreakConservation", "GenResidual"]
 ROUNDTRIP_TOL = 1e-9
@@ -43,40 +43,69 @@ ROUNDTRIP_TOL = 1e-9
 # ------------------------------------------------------------------ observation
 def evaluations_of(inp):
     """the evaluations made on one residual object: earlier ones (history) and the current one"""
-    evs = [dict(K=h["K"], c=h["c"], c0=h["c0"], pert=h["pert"]) for h in inp.get("hist", [])]
-    evs.append(dict(K=inp["K"], c=inp["c"], c0=inp["c0"], pert=inp["pert"]))
+    evs = [dict(K=h["K"], c=h["c"], c0=h["c0"], pert=h["pert"], ceq=h.get("ceq", h["c"])) for h in inp.get("hist", [])]
+    evs.append(dict(K=inp["K"], c=inp["c"], c0=inp["c0"], pert=inp["pert"], ceq=inp.get("ceq", inp["c"])))
     return evs
+
+
+DEFAULT_OPT = ["sympy", True, "asc", "comp"]
+
+
+def _backend(name):
+    import math
+    import numpy
+    import sympy
+    return {"sympy": sympy, "numpy": numpy, "math": math}[name]
 
 
 def observe_all(inp, tolz, tolnz):
     """Evaluate the real code on one constructed input: ONE EqSystem (built with the constants of the
     first evaluation), ONE NumSys object, evaluated once per entry of evaluations_of(inp) with that
-    entry's parameters (initial state ++ constants).  Returns one observation per evaluation."""
+    entry's parameters.  Options (inp['opt']): backend sympy (exact rationals) / numpy / math (floats);
+    constants passed in params or taken from the system; species order; species by composition or
+    by formula.  Returns one observation per evaluation (per-species vectors in the order of the case)."""
+    import numpy as np
     import sympy
+    bk, nep, order, spf = inp.get("opt", DEFAULT_OPT)
+    exact = bk == "sympy"
     evs = evaluations_of(inp)
-    es, names = ec.build_system(inp["species"], inp["nu"], [ec.srat(k) for k in evs[0]["K"]])
+    rev = (lambda v: v[::-1]) if order == "rev" else (lambda v: list(v))
+    species = rev(inp["species"])
+    nu = [rev(row) for row in inp["nu"]]
+    num = ec.srat if exact else (lambda p: float(Fraction(int(p[0]), int(p[1]))))
+    es, names = ec.build_system(species, nu, [ec.srat(k) if exact else num(k) for k in evs[0]["K"]], spform=spf)
     ns, ns_exc = None, None
     try:
-        ns = ec.numsys_class(inp["ns"])(es, backend=sympy, rref_equil=bool(inp["re"]),
-                                        rref_preserv=bool(inp["rp"]))
+        ns = ec.numsys_class(inp["ns"])(es, backend=_backend(bk), rref_equil=bool(inp["re"]),
+                                        rref_preserv=bool(inp["rp"]), new_eq_params=bool(nep))
     except Exception as ex:
         ns_exc = ex
     out = []
     for ev in evs:
-        consts = [ec.srat(k) for k in ev["K"]]
-        c = [ec.srat(v) for v in ev["c"]]
-        c0 = [ec.srat(v) for v in ev["c0"]]
-        params = c0 + consts
+        consts = [num(k) for k in ev["K"]]
+        c = rev([num(v) for v in ev["c"]])
+        c0 = rev([num(v) for v in ev["c0"]])
+        params = c0 + (consts if nep else [])
         obs = {"raised": False, "exc": "", "unrepresentable": False, "len": -1, "cls": "", "max": None,
-               "roundtrip": None, "q": [], "keys": [], "totc": [], "tot0": []}
+               "roundtrip": None, "q": [], "keys": [], "totc": [], "tot0": [],
+               "qarr": [], "totd": [], "scA": [], "scK": [], "eqc": []}
         try:
             if ns_exc is not None:
                 raise ns_exc
-            y = ec.internal_state(ns, inp["ns"], c, params)
+            y = ec.internal_state(ns, inp["ns"], [ec.srat(v) for v in rev(ev["c"])],
+                                  [float(p) for p in c0] + [float(k) for k in consts])
             if y is None:
                 obs["unrepresentable"] = True
             else:
-                obs["roundtrip"] = ec.roundtrip_error(ns, y, c, params)
+                if not exact:
+                    y = [float(sympy.N(v, 17)) for v in y]
+                obs["roundtrip"] = ec.roundtrip_error(ns, y, c, [float(p) for p in c0] + [float(k) for k in consts])
+                if ns.pre_processor is not None:   # the formulation's own pre_processor must denote the state too
+                    y2, _ = ns.pre_processor(np.array([float(v) for v in c]),
+                                             np.array([float(p) for p in c0] + [float(k) for k in consts]))
+                    if all(np.isfinite(y2)):
+                        obs["roundtrip"] = max(obs["roundtrip"], ec.roundtrip_error(
+                            ns, list(y2), c, [float(p) for p in c0] + [float(k) for k in consts]))
                 f = ns.f(y, params)
                 obs["len"] = len(f)
                 obs["cls"], obs["max"] = ec.classify_residual(f, tolz, tolnz)
@@ -85,13 +114,25 @@ def observe_all(inp, tolz, tolnz):
             obs["exc"] = type(ex).__name__
             obs["msg"] = str(ex)[:160]
         try:
-            fc = [Fraction(int(v[0]), int(v[1])) for v in ev["c"]]
-            f0 = [Fraction(int(v[0]), int(v[1])) for v in ev["c0"]]
+            fc = rev([Fraction(int(v[0]), int(v[1])) for v in ev["c"]])
+            f0 = rev([Fraction(int(v[0]), int(v[1])) for v in ev["c0"]])
+            feq = rev([Fraction(int(v[0]), int(v[1])) for v in ev["ceq"]]) if "ceq" in ev else fc
             obs["q"] = [ec.rat_pair(q) for q in es.equilibrium_quotients(fc)]
             keys, totc, tot0 = es.composition_conservation(fc, f0)
             obs["keys"] = [int(k) for k in keys]
             obs["totc"] = [ec.float_rat_pair(v) for v in totc]
             obs["tot0"] = [ec.float_rat_pair(v) for v in tot0]
+            # argument forms: two float states stacked in a 2-d array; dicts keyed by substance name
+            q2 = es.equilibrium_quotients(np.array([[float(v) for v in fc], [float(v) for v in feq]]))
+            obs["qarr"] = [[ec.float_rat_pair(q[0]) for q in q2], [ec.float_rat_pair(q[1]) for q in q2]]
+            _, td, t0d = es.composition_conservation(dict(zip(names, [float(v) for v in fc])),
+                                                     dict(zip(names, [float(v) for v in f0])))
+            obs["totd"] = [[ec.float_rat_pair(v) for v in td], [ec.float_rat_pair(v) for v in t0d]]
+            # the un-reduced (A, ks) and the system's own constants
+            A, ks = es.stoichs_constants(eq_params=[ec.srat(k) for k in ev["K"]], rref=False, backend=sympy)
+            obs["scA"] = [rev([int(v) for v in row]) for row in np.asarray(A).tolist()]
+            obs["scK"] = [ec.rat_pair(k) for k in ks]
+            obs["eqc"] = [ec.float_rat_pair(k) if not exact else ec.rat_pair(k) for k in es.eq_constants()]
         except Exception as ex:
             obs["helpers_raised"] = type(ex).__name__ + ": " + str(ex)[:120]
         out.append(obs)
@@ -106,6 +147,10 @@ def disagreements(inp, exp, obs, nth=0, pert=None):
     """spec -> code comparison of evaluation number nth of one object; every expected value is TLC's."""
     fn = "NumSys%s.f" % inp["ns"]
     cfg = {"re": bool(inp["re"]), "rp": bool(inp["rp"])}
+    opt = inp.get("opt", DEFAULT_OPT)
+    if list(opt) != DEFAULT_OPT:
+        cfg["backend"] = opt[0]
+        cfg["opt"] = "%s/%s/%s/%s" % (opt[0], "params" if opt[1] else "ownK", opt[2], opt[3])
     if nth > 0:
         cfg["reused"] = True   # the object had been evaluated before with other parameters
     pert = pert or inp["pert"]
@@ -129,6 +174,15 @@ def disagreements(inp, exp, obs, nth=0, pert=None):
             bad.append(dict(fn="equilibrium_quotients", what="value"))
         if obs["keys"] != exp["keys"] or obs["totc"] != exp["totc"] or obs["tot0"] != exp["tot0"]:
             bad.append(dict(fn="composition_conservation", what="value"))
+        if "qceq" in exp:   # argument forms (judged for the current evaluation)
+            if obs["qarr"] != [exp["q"], exp["qceq"]]:
+                bad.append(dict(fn="equilibrium_quotients", what="value-2d-array"))
+            if obs["totd"] != [exp["totc"], exp["tot0"]]:
+                bad.append(dict(fn="composition_conservation", what="value-dict"))
+            if obs["scA"] != inp["nu"] or obs["scK"] != inp["K"]:
+                bad.append(dict(fn="stoichs_constants", what="value"))
+            if obs["eqc"] != exp["sysK"]:
+                bad.append(dict(fn="eq_constants", what="value"))
     return bad
 
 
@@ -148,7 +202,7 @@ def replay_case(case):
 
 
 def _expected_view(exp):
-    return {k: exp[k] for k in ("zero", "ateq", "keeps", "neq", "q", "keys", "totc", "tot0")}
+    return {k: exp[k] for k in ("zero", "ateq", "keeps", "neq", "q", "keys", "totc", "tot0", "qceq", "sysK") if k in exp}
 
 
 def _nontrivial(inp):
@@ -156,7 +210,7 @@ def _nontrivial(inp):
 
 
 def _ident(inp):
-    return [inp["nu"], inp["K"], inp["c"], inp["c0"], inp["ns"], inp["re"], inp["rp"],
+    return [inp["nu"], inp["K"], inp["c"], inp["c0"], inp["ns"], inp["re"], inp["rp"], inp.get("opt"),
             [s["name"] for s in inp["species"]], [[h["K"], h["c"], h["c0"]] for h in inp.get("hist", [])]]
 
 
@@ -233,11 +287,13 @@ def gen_trace(pool, rng, max_rxns):
     for _ in range(200):
         rids = rng.sample(sorted(pool.rx), rng.randint(1, max_rxns))
         rids, species, nu = pool.system(rids)
-        evs = [_gen_eval(rng, nu, len(species)) for _ in range(rng.choice([1, 1, 2, 2, 3]))]
+        opt = rng.choice(OPTIONS) if rng.random() < 0.6 else list(DEFAULT_OPT)
+        # other constants can only be handed to a re-used object when they travel in params
+        evs = [_gen_eval(rng, nu, len(species)) for _ in range(rng.choice([1, 1, 2, 2, 3]) if opt[1] else 1)]
         if any(e is None for e in evs):
             continue
         re_, rp = rng.choice(FLAGS)
-        return dict(rids=rids, species=species, nu=nu, evals=evs, ns=rng.choice(ec.NUMSYS), re=re_, rp=rp)
+        return dict(rids=rids, species=species, nu=nu, evals=evs, ns=rng.choice(ec.NUMSYS), re=re_, rp=rp, opt=opt)
     raise core.MachineryFailure("C07 generator: no admissible construction found")
 
 
@@ -254,13 +310,16 @@ def _k_of(nu, ceq):
     return ks
 
 
-OBS_FIELDS = ("raised", "len", "cls", "q", "keys", "totc", "tot0")
+OBS_FIELDS = ("raised", "len", "cls", "q", "keys", "totc", "tot0", "qarr", "totd", "scA", "scK", "eqc")
+OPTIONS = [[b, n, o, f] for b in ("sympy", "numpy", "math") for n in (True, False) for o in ("asc", "rev")
+           for f in ("comp", "formula")]
 
 
 def run_trace(g):
     recs = [dict(K=_k_of(g["nu"], e["ceq"]), c=[_pair(v) for v in e["c"]], c0=[_pair(v) for v in e["c0"]],
-                 pert=e["pert"]) for e in g["evals"]]
-    inp = dict(species=g["species"], nu=g["nu"], ns=g["ns"], re=g["re"], rp=g["rp"], hist=recs[:-1], **recs[-1])
+                 pert=e["pert"], ceq=[_pair(v) for v in e["ceq"]]) for e in g["evals"]]
+    inp = dict(species=g["species"], nu=g["nu"], ns=g["ns"], re=g["re"], rp=g["rp"], opt=g["opt"], hist=recs[:-1],
+               **recs[-1])
     allobs = observe_all(inp, 10, 6)
     tr = [{"ev": "sys", "rs": g["rids"]}]
     for n, (e, obs) in enumerate(zip(g["evals"], allobs)):
@@ -271,7 +330,7 @@ def run_trace(g):
         p = dict(e["pert"])
         p["ev"] = "pert"
         tr.append(p)
-        tr.append({"ev": "result", "ns": g["ns"], "re": g["re"], "rp": g["rp"],
+        tr.append({"ev": "result", "ns": g["ns"], "re": g["re"], "rp": g["rp"], "opt": g["opt"],
                    "obs": {k: obs[k] for k in OBS_FIELDS}})
     obs = dict(allobs[-1])
     obs["unrepresentable"] = any(o["unrepresentable"] for o in allobs)
@@ -286,6 +345,10 @@ CLAUSE_WHAT = {"raises": "raises", "len": "len", "zero-expected": "zero-expected
 def _trace_key(inp, obs, clause, nth=0):
     if clause in CLAUSE_WHAT:
         key = dict(fn="NumSys%s.f" % inp["ns"], what=CLAUSE_WHAT[clause], re=bool(inp["re"]), rp=bool(inp["rp"]))
+        opt = inp.get("opt", DEFAULT_OPT)
+        if list(opt) != DEFAULT_OPT:
+            key["backend"] = opt[0]
+            key["opt"] = "%s/%s/%s/%s" % (opt[0], "params" if opt[1] else "ownK", opt[2], opt[3])
         if nth > 0:
             key["reused"] = True
         if clause == "raises":
@@ -293,26 +356,33 @@ def _trace_key(inp, obs, clause, nth=0):
         if clause.endswith("expected"):
             key["pert"] = evaluations_of(inp)[min(nth, len(evaluations_of(inp)) - 1)]["pert"]["kind"]
         return key
-    return dict(fn="equilibrium_quotients" if clause == "quotients" else "composition_conservation", what="value")
+    fn = {"quotients": "equilibrium_quotients", "quotients-2d": "equilibrium_quotients", "totals": "composition_conservation",
+          "totals-dict": "composition_conservation", "stoichs-constants": "stoichs_constants/eq_constants"}.get(clause, clause)
+    return dict(fn=fn, what="value" if clause in ("quotients", "totals") else clause)
 
 
 # ------------------------------------------------------------------ run
 def run(ctx):
     slices = QUICK if ctx.quick else THOROUGH
-    per_slice = 1500 if ctx.quick else 60000
+    per_slice = 1200 if ctx.quick else 50000
     pool_cases = None
     for sl in slices:
         history = sl.startswith("hist")
-        acts = [a for a in ACTIONS if not history or a in ("GenSystem", "GenNoPerturb", "GenBreakQuotient", "Residual")]
+        few_kinds = history or sl.startswith("opts") or sl == "sys_q"
+        acts = [a for a in ACTIONS if not few_kinds or a in ("GenSystem", "GenNoPerturb", "GenBreakQuotient", "Residual")]
         res = ctx.tlc("Equilibria_MC", "Equilibria_MC_%s.cfg" % sl,
-                      require_actions=(acts + (["Again"] if history else [])) if ctx.quick else (),
-                      require_cases=1000, timeout=1500)
+                      require_actions=(acts + (["Again"] if history else [])) if sl in ("single_q", "hist_q") else (),
+                      require_cases=800, timeout=1500)
         # TLC prints cases in worker order: sort, so that the seed alone determines the sample
         cases = sorted(res.cases, key=lambda c: core.stable_hash(c["in"]))
         if pool_cases is None:
             pool_cases = cases
         kinds = collections.Counter(c["in"]["pert"]["kind"] for c in cases)
-        for k in (("none", "extent") if history else ("none", "extent", "scale", "shift0")):
+        if sl.startswith("opts"):
+            seen_opts = {tuple(c["in"]["opt"]) for c in cases}
+            if len(seen_opts) < 24:
+                raise core.MachineryFailure("vacuity: only %d option bundles in slice %s" % (len(seen_opts), sl))
+        for k in (("none", "extent") if few_kinds else ("none", "extent", "scale", "shift0")):
             if not kinds[k]:
                 raise core.MachineryFailure("vacuity: no %s case in slice %s" % (k, sl))
         if history:
@@ -346,7 +416,7 @@ def run(ctx):
     pool = Pool(pool_cases)
     if len(pool.rx) < 8:
         raise core.MachineryFailure("pool reconstruction from single-reaction cases found %d reactions" % len(pool.rx))
-    n = 1500 if ctx.quick else 12000
+    n = 1200 if ctx.quick else 12000
     gens = [gen_trace(pool, ctx.rng, 4) for _ in range(n)]
     outs = ctx.pmap(run_trace, gens)
     for o in outs:
